@@ -43,7 +43,8 @@ MCInitLive == Init /\ scen \in {1, 2, 3, 6, 7} /\ sent = 0
 MCSpec == MCInitLive /\ [][MCNext]_<<vars, scen, sent>>
           /\ WF_<<vars, scen, sent>>(Send) /\ WF_vars(Reader) /\ WF_vars(Writer)
           /\ \A s \in Sessions : WF_vars(WorkerDequeue(s)) /\ WF_vars(WorkerResetFlag(s)) /\ WF_vars(WorkerStep(s))
-                                 /\ WF_vars(WorkerStopFlusher(s)) /\ WF_vars(WorkerFinalDrain(s)) /\ WF_vars(WorkerReply(s))
+                                 /\ WF_vars(WorkerStopFlusher(s)) /\ WF_vars(WorkerFinalDrainOut(s)) /\ WF_vars(WorkerFinalDrainErr(s))
+                                 /\ WF_vars(WorkerReplyText(s)) /\ WF_vars(WorkerReplyDone(s))
 
 \* C30 liveness on the scenarios whose loops are interrupted or closed: every request gets its done
 Ids(sc) == {sc[i].id : i \in 1..Len(sc)}
